@@ -1669,6 +1669,9 @@ func genAll(n int) {
 			genNeg(k)
 		}
 		genResponses(1)
+		genPool(false)
+		genPool(false)
+		genPool(true)
 	}
 }
 
